@@ -575,6 +575,36 @@ fn gen_node(rng: &mut Rng, out: &mut String, depth: usize) {
                 "<svg><script>",
                 "<a><table><a>",
                 "<font><p><font><font><font>",
+                // adoption agency / foster parenting with an override target, foreign elements that
+                // carry the local name of an HTML special element (namespace checks everywhere)
+                "<table><a><div><svg><template></a>",
+                "<table><b><p><math><template></b>",
+                "<table><tr><i><p><svg><table></i>",
+                "<a><svg><a></a>",
+                "<b><math><mi><b></b>",
+                "<svg><template><div>",
+                "<math><template>x</template>",
+                "<svg><title><table>",
+                "<svg><select><option>",
+                "<math><form><input>",
+                "<svg><html><body>",
+                "<svg><head></svg>",
+                "<svg><script></svg>x",
+                "<svg><textarea></textarea>",
+                "<svg><frameset>",
+                "<table><svg><template><td>",
+                "<select><svg><option>",
+                "<template><svg><template></template></svg>",
+                "<table><td><a><table></a>",
+                "<table><caption><b><table></b>",
+                "<p><b><table><p></b>",
+                "<b><table><b></b><td></b>",
+                "<i><b><table></i></b>x",
+                "<form><svg><form></svg></form>",
+                "<button><svg><button>",
+                "<li><svg><li></svg><li>",
+                "<dd><math><dt></math><dt>",
+                "<h1><svg><h2></svg><h3>",
             ]);
             out.push_str(skel);
         },
@@ -586,7 +616,27 @@ fn gen_node(rng: &mut Rng, out: &mut String, depth: usize) {
                 gen_end_tag(rng, tag, out);
             }
         },
-        _ => out.push(*rng.pick(ODD_CHARS)),
+        _ => {
+            if rng.chance(1, 2) {
+                out.push(*rng.pick(ODD_CHARS));
+            } else {
+                // a foreign element named like an HTML special element, possibly closed by an end tag
+                let root = rng.pick_str(&["<svg>", "<math>", "<svg><foreignObject><svg>", "<math><mi><math>", "<svg><desc><svg>"]);
+                let name = rng.pick_str(&[
+                    "template", "table", "select", "option", "html", "head", "body", "form", "script", "title", "textarea",
+                    "style", "a", "button", "li", "p", "td", "tr", "caption", "frameset", "noscript", "plaintext", "input",
+                ]);
+                out.push_str(root);
+                out.push('<');
+                out.push_str(name);
+                out.push('>');
+                if rng.chance(1, 2) {
+                    out.push_str("</");
+                    out.push_str(rng.pick_str(&["a", "b", "i", "p", "table", "template", "svg", "math", "body", "html", "div"]));
+                    out.push('>');
+                }
+            }
+        },
     }
 }
 
